@@ -204,7 +204,7 @@ pub unsafe extern "C" fn getenv(name: *const u8) -> *mut u8 {
     if h % 2 == 0 {
         return real; // unset in this world
     }
-    let v: &[&str] = &["1", "0", "true", "sim", "/sim/path", "2", "x86_64", "always"];
+    let v: &[&str] = &["1", "0", "true", "sim", "/sim/path", "2", "x86_64", "always", "1.60", "1.83.0", "1.90", "2024", "linux", "never", "", "my_crate"];
     let s = format!("{}\0", v[((h >> 8) % v.len() as u64) as usize]);
     Box::leak(s.into_boxed_str()).as_ptr() as *mut u8
 }
